@@ -263,6 +263,9 @@ class AliasMixin:
         """Return the name of the underlying model variable associated with `alias`."""
         return self.aliases.get(alias, alias)
 
+    def __contains__(self, key: str) -> bool:
+        return super().__contains__(self._resolve_alias(key))
+
     def __getattr__(self, name: str) -> Any:
         return super().__getattr__(self._resolve_alias(name))
 
